@@ -125,6 +125,11 @@ def run(tier):
         for attempt in range(3):
             g = cadence(n, iv)
             cad_runs += 1
+            if g.get("res") != "canceled":
+                # the loop's context was cancelled at the n-th ping (every ping answered): it stops with the context's error
+                verd.witness("cancel-not-honoured", g.get("res", "?"), "interval %d ms, context cancelled at ping %d of an always-answered loop: KeepAlive %s (%d pings)"
+                             % (iv, n, "did not return" if g.get("res") == "no-return" else "returned " + str(g.get("res")), g.get("pings", -1)), {"n": n, "intervalMs": iv, "run": g})
+                break
             want = n * iv * 1000.0
             v = "early" if g["last_us"] < want * 0.97 - 500 else "late" if g["last_us"] > want * 1.5 + 40000 else "ok"
             verdicts.append((v, g))
